@@ -304,8 +304,8 @@ def strip(r):
 SIGCOUNT = {}
 
 
-def judge(ctx, recs, what):
-    rejects = tracecheck.validate(ctx, "Hist2dTrace.tla", [strip(r) for r in recs], what=what)
+def judge(ctx, recs, what, shard_size=5000):
+    rejects = tracecheck.validate(ctx, "Hist2dTrace.tla", [strip(r) for r in recs], what=what, shard_size=shard_size)
     byid = {r["id"]: r for r in recs}
     for rid, failing in rejects.items():
         r = byid[rid]
@@ -336,11 +336,13 @@ def selftests(ctx, consts):
     def dev(sw):
         return sw, ctx.tlc("Hist2dMC.tla", what="self-test: mechanism with %s=FALSE violates MechRefines" % sw,
                            cfg_text=cfg(constants=dict(st, **{sw: False}), invariants=["MechRefines"]),
-                           workers=2, allow_violation=True, coverage=False)
+                           workers=1, allow_violation=True, coverage=False)     # 1 worker: deterministic state counts
+    n0 = len(ctx.tlc_runs)
     with ThreadPoolExecutor(3) as ex:
         for sw, r in ex.map(dev, ["FixedIndex", "FixedEdge", "FixedRev"]):
             if "MechRefines" not in r.violated:
                 raise MachineryError("self-test failed: MechRefines not violated with %s=FALSE" % sw)
+    ctx.tlc_runs[n0:] = sorted(ctx.tlc_runs[n0:], key=lambda t: t["what"])      # completion order -> fixed order
     # reference observations from the repaired mechanism (independent of the state of the real code)
     r = ctx.tlc("Hist2dMC.tla", what="self-test: export reference observations",
                 cfg_text=cfg(constants=dict(st, DoExportRef=True), constraints=["Export"]), workers=1, coverage=False)
@@ -442,7 +444,7 @@ def run(ctx):
         rbox = pmap(run_box, random_box(rng, nbox, base + nrand))
         for r in rrecs + rbox:
             ctx.count(r["c"])
-        judge(ctx, rrecs + rbox, "judge seeded larger cases (Hist2dTrace)")
+        judge(ctx, rrecs + rbox, "judge seeded larger cases (Hist2dTrace)", shard_size=2000)
     ctx.rule = ("every pair of coordinate arrays of length 1..%d over %d lattice values x every bin-size pair %s / bin-count pair %s "
                 "(10*x+y; both given: %s) x every xmin in %s, xmax in %s, ymin in %s, ymax in %s (99 = absent), exported from "
                 "Hist2dMC.tla, each concretised on one of %d pairs of dyadic lattices and run in %d call forms (plain, rev, more, z; "
